@@ -143,4 +143,17 @@ GrowthInside(tick, lo, up, global, initLo, outLo, initUp, outUp) ==
    product does not fit in the accumulator width (the program: checked_mul overflow => 0).     *)
 Credit(L, delta) ==
   LET p == L \otimes delta IN IF WrapMod \preceq p THEN 0 ELSE BDiv(p, Q)
+
+-----------------------------------------------------------------------------
+(* Token-2022 transfer fees (C16).  c = [bps, max]. *)
+TfFee(c, x) == IF c.bps = 0 \/ x \doteq 0 THEN 0 ELSE BMin(MulDivCeil(x, c.bps, 10000), c.max)
+TfExcluded(c, x) == x -- TfFee(c, x)
+(* y is the smallest amount whose fee-reduced value is `need' (y - Fee(y) is non-decreasing in y) *)
+TfMinimalFor(c, y, need) ==
+  /\ TfExcluded(c, y) \doteq need
+  /\ (y \doteq 0) \/ (TfExcluded(c, y -- 1) \prec need)
+TfExclOK(c, x, r) == r.fee \doteq TfFee(c, x) /\ (r.amount ++ r.fee) \doteq x
+TfInclOK(c, need, r) ==
+  IF need \doteq 0 THEN r.amount \doteq 0 /\ r.fee \doteq 0
+  ELSE TfMinimalFor(c, r.amount, need) /\ r.fee \doteq TfFee(c, r.amount)
 =============================================================================
